@@ -38,6 +38,10 @@ pub struct Case {
     pub abort_requests: usize,
     #[serde(default)]
     pub abort_crash_at: u64,
+    /// an earlier, complete rewrite on the same thread (the previous utterance of the session);
+    /// afterwards rewrite(A S B) must still be rewrite(A) S rewrite(B)
+    #[serde(default)]
+    pub prior_text: String,
 }
 
 const NEUTRAL: [&str; 52] = [
@@ -96,6 +100,19 @@ fn single_number<L: LangInterpreter>(l: &L, s: &str) -> bool {
     .unwrap_or(false)
 }
 
+fn drop_words_of(s: &str) -> Vec<String> {
+    let words: Vec<&str> = s.split(' ').collect();
+    let mut v = vec![];
+    if words.len() > 1 {
+        for i in 0..words.len() {
+            let mut w = words.clone();
+            w.remove(i);
+            v.push(w.join(" "));
+        }
+    }
+    v
+}
+
 fn viol(oracle: &str, detail: String) -> RunResult {
     RunResult { fingerprint: 0, nontrivial: true, events: 0, violation: Some(Violation { oracle: oracle.into(), detail }) }
 }
@@ -144,6 +161,25 @@ fn exec<L: LangInterpreter>(l: &L, case: &Case, stats: &mut Stats) -> RunResult 
                     case.thr, case.a, case.s, case.b, w, ra, rb
                 ),
             )
+        }
+    }
+
+    // --- a previous, complete call on this thread must leave nothing behind either
+    if !case.prior_text.is_empty() {
+        let _ = rewrite(l, &case.prior_text, thr);
+        stats.hit("fault.prior_call_on_thread");
+        if let (Ok(w2), Ok(ra), Ok(rb)) = (rewrite(l, &case.b, thr), rewrite(l, &case.a, thr), rewrite(l, &case.b, thr)) {
+            // B first (it is what follows the prior call directly), then A, then B again
+            let _ = ra;
+            if w2 != rb {
+                return viol(
+                    "R4-previous-call-leaves-nothing",
+                    format!(
+                        "lang={code} thr={} after rewrite({:?}) on this thread, rewrite(B) = {:?}, the next time {:?}; B = {:?}",
+                        case.thr, case.prior_text, w2, rb, case.b
+                    ),
+                );
+            }
         }
     }
 
@@ -309,7 +345,26 @@ impl Check for C10 {
         } else {
             (vec![], 0, 0)
         };
-        Case { lang, concrete, thr, a, s, b, x, p, y, abort_words, abort_requests, abort_crash_at }
+        let prior_text = if rng.chance(1, 4) {
+            let n = rng.range(1, 6);
+            let mut t = gen_text(rng, pool, &cfg, n);
+            // the last word is what scanner state left behind would remember: pick it deliberately
+            let pairs = crate::vocab::link_pairs(lang);
+            let last = match rng.below(4) {
+                0 if !pairs.is_empty() => pairs[rng.below(pairs.len())].0,
+                1 => rng.word(pool.decsep),
+                2 => rng.word(pool.conj),
+                _ => rng.word(pool.tens),
+            };
+            if !t.is_empty() && !t.ends_with(char::is_whitespace) {
+                t.push(' ');
+            }
+            t.push_str(last);
+            t
+        } else {
+            String::new()
+        };
+        Case { lang, concrete, thr, a, s, b, x, p, y, abort_words, abort_requests, abort_crash_at, prior_text }
     }
 
     fn execute(&self, case: &Case, stats: &mut Stats) -> RunResult {
@@ -320,6 +375,14 @@ impl Check for C10 {
         let mut out = vec![];
         if !case.x.is_empty() {
             out.push(Case { x: String::new(), p: String::new(), y: String::new(), ..case.clone() });
+        }
+        if !case.prior_text.is_empty() {
+            out.push(Case { prior_text: String::new(), ..case.clone() });
+            for t in drop_words_of(&case.prior_text) {
+                if !t.is_empty() {
+                    out.push(Case { prior_text: t, ..case.clone() });
+                }
+            }
         }
         if !case.abort_words.is_empty() {
             out.push(Case { abort_words: vec![], abort_requests: 0, abort_crash_at: 0, ..case.clone() });
@@ -436,6 +499,7 @@ impl Check for C10 {
             abort_words: vec![],
             abort_requests: 0,
             abort_crash_at: 0,
+            prior_text: String::new(),
         }]
     }
 
@@ -473,6 +537,6 @@ impl Check for C10 {
     }
 
     fn fault_kinds(&self) -> Vec<&'static str> {
-        vec!["fault.session_cut", "fault.scan_abandoned_mid_stream", "fault.scan_crashed_in_callback"]
+        vec!["fault.session_cut", "fault.scan_abandoned_mid_stream", "fault.scan_crashed_in_callback", "fault.prior_call_on_thread"]
     }
 }
